@@ -736,6 +736,10 @@ def norm_schema(s):
             continue      # positional items: absent = true (the model's AST carries a Bool); otherwise literal
         elif k in ("description", "$schema", "title", "$comment", "examples"):
             continue      # annotations: no effect on what the schema admits
+        elif k in ("minItems", "maxItems", "minProperties", "maxProperties") and s.get("type", "object") == "object" \
+                and "$ref" not in s and not any(m in s for m in ("allOf", "anyOf", "oneOf", "not", "enum")):
+            # the size of an object: typedpy's dialect reads minItems / maxItems, exports minProperties / maxProperties
+            out[{"minItems": "minProperties", "maxItems": "maxProperties"}.get(k, k)] = v
         elif k == "properties":
             out[k] = {n: norm_schema(x) for n, x in v.items()}
         elif k in ("enum", "default"):
@@ -817,6 +821,23 @@ def line(case, impl):
            "mutants": mutants}
     if impl.get("code") is not None:
         out["code"] = impl["code"]
+    fdocs = (impl.get("docs") or {}).get("field_docs") or []
+    if fdocs:
+        out["fieldDocs"] = [[n, dump.dump_value(x)] for n, x, _, _ in fdocs]
+        props = case["schema"].get("properties", {})
+        table = []
+        for n, x, _, _ in fdocs:
+            pat = props.get(n, {}).get("pattern")
+            if pat is not None and isinstance(x, str):
+                try:
+                    with warnings.catch_warnings():
+                        warnings.simplefilter("ignore")
+                        e = [pat, x, re.compile(pat).match(x) is not None, re.search(pat, x) is not None]
+                except re.error:
+                    continue
+                if e not in table:
+                    table.append(e)
+        out["reTable"] = table
     return out
 
 
@@ -964,6 +985,25 @@ def site_key(site, desc=None):
             "enum": "unescaped:enum", "required": "unescaped:required", "default-repr": "unescaped:default-repr"}[site]
 
 
+_GEN_MOVED = None
+
+
+def generator_moved():
+    """did the source of the schema -> code generator move from the pinned tree (extract/srcpins.py)?  On the pinned
+    tree the model's text must equal the real text character by character (anything else is a model error); where the
+    generator was rewritten, a different spelling of the same module is not an alarm by itself: the case is then decided
+    by the recogniser on the REAL text vs CPython, the dumped classes, the docstring and the round trip."""
+    global _GEN_MOVED
+    if _GEN_MOVED is None:
+        try:
+            from extract import srcpins
+            ch = srcpins.changed(os.environ.get("VERIF_REPO", "/repo"))
+            _GEN_MOVED = any(k.startswith("typedpy/json_schema/json_schema_mapping.py::") for k in ch)
+        except Exception:
+            _GEN_MOVED = False
+    return _GEN_MOVED
+
+
 def first_diff(a, b):
     k = 0
     while k < min(len(a), len(b)) and a[k] == b[k]:
@@ -1006,13 +1046,15 @@ def judge(case, impl, model):
         msgs.append("generator failed on the canonical schema: " + impl["canon_err"])
     if model.get("text") is not None and "code_canon" in impl:
         if model["text"] != impl["code_canon"]:
-            msgs.append("emitted text differs from the model: real " + first_diff(impl["code_canon"], model["text"]))
+            if not generator_moved():
+                msgs.append("emitted text differs from the model: real " + first_diff(impl["code_canon"], model["text"]))
         elif impl.get("canon_same") and impl.get("code") is not None and impl["code"] != model["text"]:
-            msgs.append("emitted text (through the API under test) differs from the model: real "
-                        + first_diff(impl["code"], model["text"]))
+            if not generator_moved():
+                msgs.append("emitted text (through the API under test) differs from the model: real "
+                            + first_diff(impl["code"], model["text"]))
     # -- the compiled model agrees with the kernel-checked theorem emitted_module_accepted_partial
-    if (model.get("srcOk") and model.get("oracleOk") and model.get("clean") and model.get("nestOk")
-            and model.get("text") is not None and model.get("recog") != "accept"):
+    if (model.get("srcOk") and model.get("oracleOk") and model.get("nestOk")
+            and model.get("text") is not None and (model.get("recog") != "accept" or not model.get("clean"))):
         msgs.append("side conditions of emitted_module_accepted_partial hold but the recogniser answers "
                     + str(model.get("recog")) + " for the model's text")
     # -- the structural recogniser (Sem/PyGram.lean) against CPython's compile
@@ -1026,6 +1068,21 @@ def judge(case, impl, model):
         if ok is not None and ((v == "accept" and not ok) or (v == "reject" and ok)):
             msgs.append(f"recogniser says {v} for a mutated source, CPython compile {'succeeds' if ok else 'fails'}: "
                         + repr(m)[:400])
+            break
+
+    # -- the Lean exactness models (Spec/CodeExact.lean: Deser + validate on the generated declaration, jsV on the source
+    #    schema) against the real Deserializer and jsonschema on this case's scalar properties
+    fdocs = (impl.get("docs") or {}).get("field_docs") or []
+    for (n, x, got, want), mv in zip(fdocs, model.get("fieldVerdicts", [])):
+        if mv is None or model.get("nameIssue"):
+            continue
+        if mv[0] != got:
+            msgs.append(f"exactness model: generated field {n!r} on value {x!r}: real class {'accepts' if got else 'rejects'}, "
+                        f"Lean Deser+validate model {'accepts' if mv[0] else 'rejects'}")
+            break
+        if mv[1] != want:
+            msgs.append(f"exactness model: schema of {n!r} on value {x!r}: jsonschema {'admits' if want else 'rejects'}, "
+                        f"Lean validator model {'admits' if mv[1] else 'rejects'}")
             break
 
     # -- caller's schema must not be modified
@@ -1052,6 +1109,10 @@ def judge(case, impl, model):
             # a name that is not a Python name: outside the recogniser's subset (no prediction), or it parses as something
             # else / is name-mangled inside the class body (`__x`) and is undefined when the module runs
             attributed = True
+        if model.get("nameIssue") and phase_i == "ok" and phase_m in ("compile", "exec"):
+            # a name that is not a Python name changed what the text means ("#c" comments out the line that held the
+            # forward / cyclic reference): keyed below as roundtrip:name-not-identifier
+            attributed = True
         if not attributed:
             msgs.append(f"phase differs: real {phase_i} ({impl.get('err')}: {impl.get('msg')}), model {phase_m}")
     if phase_i == "gen":
@@ -1064,7 +1125,7 @@ def judge(case, impl, model):
         elif model.get("nameIssue") and not (phase_i == "exec" and impl.get("err") != "NameError"):
             key = f"{phase_i}:name-not-identifier"
         elif not model["refsOrdered"]:
-            key = "exec:forward-ref"
+            key = "exec:cyclic-ref"
         else:
             key = f"{phase_i}:unexpected"
         fails.append((key, f"generated source does not {'compile' if phase_i == 'compile' else 'execute'}: "
@@ -1160,13 +1221,17 @@ def tags(case, impl, model):
         o = model["out"]
         out.append("fragment:" + ("in" if o.get("inFragment") else "out"))
         out.append("recog-model:" + str(o.get("recog")))
+        if o.get("text") is not None and "code_canon" in impl:
+            out.append("text:" + ("equal" if o["text"] == impl["code_canon"] else "differs"))
         out.append("recog-real:" + str(o.get("recogReal")))
         for v, ok in zip(o.get("mutantVerdicts", []), impl.get("mutant_ok", [])):
             out.append(f"mutant:{v}/cpython-{'ok' if ok else 'fails'}")
         if o.get("nameIssue"):
             out.append("name-not-identifier")
-        out.append("theorem-side-conditions:" + ("hold" if o.get("srcOk") and o.get("oracleOk") and o.get("clean")
-                                                   and o.get("nestOk") else "excluded"))
+        fv = [v for v in o.get("fieldVerdicts", []) if v is not None]
+        out.append("exactness-model-values:%d" % min(40, 10 * (len(fv) // 10)))
+        out.append("theorem-side-conditions:" + ("hold" if o.get("srcOk") and o.get("oracleOk") and o.get("nestOk")
+                                                   else "excluded"))
         for u in sorted(set(o.get("unfaithful", []))):
             out.append("unfaithful:" + u)
         out.append("hostile-sites:%d" % min(3, len([x for x in o.get("sites", []) if re.search(r"['\"\\\n]", x["source"][1:-1])])))
